@@ -39,6 +39,26 @@ META = {
         "level_note": "Trusts rowan's text_range/descendants_with_tokens as the observation of the tree; inputs that make the parser panic are C01's business and are skipped here (counted).",
         "design_ref": "DESIGN.md section 6, C02",
     },
+    "C12": {
+        "budget": {"quick": 35, "thorough": 480},
+        "rule": "schema texts: hand-written specials (implicit/explicit schema, schema extensions, renamed roots, redefined built-in directives, built-in scalar extensions), "
+                "EXHAUSTIVE placements of one definition plus every subset of up to three extensions of the same type in every order for all six type kinds, the type-system part of every corpus file, "
+                "apollo-smith schemas, and model-generated schemas (plain and with random trivia); for each schema built without errors: serialize (default and no_indent), re-parse, "
+                "compare ordered digest (types, fields, arguments, enum values, members, interfaces, directive applications, root operations in order), PartialEq, second serialization byte-identical, validity preserved. "
+                "distinct_nontrivial = distinct texts that built without errors and have >= 8 digest lines",
+        "assumptions": COMMON_ASSUMPTIONS + [
+            "schemas that do not build cleanly are outside the property and are skipped (counted)",
+            "the ordered digest is computed by the harness through apollo's public Schema API; built-in types and unredefined built-in directives are not part of it",
+        ],
+        "floors": {"any": {"source": ["special", "extension_interleaving", "corpus", "model_plain", "model_trivia", "smith"],
+                           "interleaving_kind": ["type", "interface", "enum", "input", "union", "scalar"]}},
+        "exhaustive_subspaces": {"quick": ["all orders of {definition} + every subset of 3 (2 for scalar) extensions of one type, for the six type kinds (256 placements)"],
+                                 "thorough": ["all orders of {definition} + every subset of 3 (2 for scalar) extensions of one type, for the six type kinds (256 placements)"]},
+        "technique": "runtime monitoring: metamorphic round-trip monitor with an ordered-digest oracle over generated, corpus and exhaustively interleaved schemas",
+        "level_text": "Exploration: every schema that builds cleanly among 10^5-10^6 generated/corpus/smith inputs plus an exhaustive small space of definition/extension placements is serialized, re-parsed and compared by an order-sensitive digest.",
+        "level_note": "Metamorphic: trusts apollo's parser to read back what the serializer wrote (C08/C05 cover that separately); the digest is the harness's own walk of the public Schema API.",
+        "design_ref": "DESIGN.md section 6, C12",
+    },
 }
 
 # Properties not claimed, with the reason (kept current; see DESIGN.md section 10).
